@@ -55,7 +55,7 @@ def run_posctl(ctx, rule, what):
     elif what == "rng":
         n = len([x for x in rng_constructors(P) if x[3] != "from_entropy"])
     elif what == "statics":
-        n = len(P.statics)
+        n = len([s for s in P.statics if s.get("thread_local") or s.get("mutable") or not s.get("freeze", False)])
     elif what == "aborts":
         n = sum(1 for f in P.fns.values() for b in f.cfg.reachable if f.blocks[b]["term"]["k"] == "assert")
     elif what == "u8-tables":
